@@ -87,6 +87,41 @@ var SetOK = wire.NewSet(NewInt)
 var SetS = wire.NewSet(NewS)
 `
 
+// c20Conf is a helper package that does not depend on Wire.
+const c20Conf = `package conf
+
+type T struct {
+	A int
+	B string
+}
+
+func (T) Method() int { return 1 }
+
+func (*T) M() {}
+
+type G[P any] struct{ V P }
+
+type I interface{ M() }
+
+type C struct{}
+
+func (C) M() {}
+
+var Default = 7
+
+var Default2 = T{A: 2}
+
+var PT = &T{A: 3}
+
+var Fn = func() int { return 4 }
+
+const Const = "c"
+
+func New() *T { return &T{} }
+
+func NewT() T { return T{} }
+`
+
 // forms: text uses "wire." which is rewritten for dot / renamed imports.
 var c20Item = []string{
 	"nil", "true", "x", "k", `"str"`, "42", "1.5", "NewS", "(NewS)", "((NewS))", "S{}", "&S{}", "S{A: 1}", "*new(S)", "new(S)",
@@ -95,19 +130,19 @@ var c20Item = []string{
 	"names", "new(int)", "struct{}{}", "[]int{1}", "map[string]int{}", "G[int]{}", "Pair[int, string]{}", "up", "unsafe.Pointer(nil)", "wire.ProviderSet{}", "&wire.ProviderSet{}", "*new(wire.ProviderSet)",
 	"wire.Binding{}", "wire.ProvidedValue{}", "wire.StructProvider{}", "wire.StructFields{}", "[]interface{}{NewS}", "interface{}(NewS)", "any(NewS)", "I(nil)", "error(nil)", "C{}", "ps", "one", "iota_",
 	"wire.NewSet(NewS, nil)", "wire.NewSet(nil)", "wire.NewSet(x)", "wire.NewSet(wire.Value)", "wire.Build(NewS)", "wire.NewSet(wire.Build(NewS))", "(wire.NewSet)(NewInt)", "(wire.NewSet(NewInt))",
-	"wire.NewSet(args...)", "wire.NewSet(names)", "pair", "NewSFrom", "fieldName", "fieldName()", "len", "new", "make([]int, 1)", "S.M", "struct{ A int }{1}", "[1]S{}", "chan int(nil)", "(chan int)(nil)",
+	"wire.NewSet(args...)", "wire.NewSet(names)", "conf.Default", "conf.Const", "conf.New", "conf.T{}", "conf.NewT", "conf.PT", "conf.Fn", "os.Stdin", "fmt.Sprint", "errors.New", "conf.T.Method", "conf.Default2", "pair", "NewSFrom", "fieldName", "fieldName()", "len", "new", "make([]int, 1)", "S.M", "struct{ A int }{1}", "[1]S{}", "chan int(nil)", "(chan int)(nil)",
 }
 
-var c20StructArg0 = []string{"new(S)", "(new(S))", "&S{}", "(*S)(nil)", "new(struct{ A int })", "new(G[int])", "new(Pair[int, string])", "new(int)", "new(*S)", "nil", "S{}", "new(I)", "new(F)", "ps", "NewPS()", "new(T)", "new(C)", "&struct{ A int }{}", "x", "new(wire.ProviderSet)", "new([]S)", "new(map[string]S)", "interface{}(new(S))", "any(nil)", "Gen[*S]()"}
+var c20StructArg0 = []string{"new(conf.T)", "new(conf.G[int])", "new(S)", "(new(S))", "&S{}", "(*S)(nil)", "new(struct{ A int })", "new(G[int])", "new(Pair[int, string])", "new(int)", "new(*S)", "nil", "S{}", "new(I)", "new(F)", "ps", "NewPS()", "new(T)", "new(C)", "&struct{ A int }{}", "x", "new(wire.ProviderSet)", "new([]S)", "new(map[string]S)", "interface{}(new(S))", "any(nil)", "Gen[*S]()"}
 
 var c20Names = []string{"", `"A"`, `"*"`, "k", "star", "names...", "`A`", `"A", "A"`, `""`, `"a"`, `"A" + ""`, "string(k)", `"A", "B"`, `"B", "A"`, `"*", "A"`, `"A", "*"`, `"V"`, `"Key"`, `"C"`, "fieldName()", `k, "B"`, `"\x41"`, `"A "`, "[]string{\"A\"}...", "nil...", `"*", "*"`, "`*`"}
 
-var c20FieldsArg0 = []string{"new(S)", "new(*S)", "new(**S)", "new(*int)", "new(int)", "nil", "&S{}", "new(G[int])", "new(*G[int])", "new(struct{ A int })", "new(*struct{ A int })", "new(I)", "ps", "&ps", "new(T)", "new(*T)", "(**S)(nil)", "new(Pair[int, string])", "new([]S)", "x", "any(new(S))"}
+var c20FieldsArg0 = []string{"new(conf.T)", "new(*conf.T)", "new(S)", "new(*S)", "new(**S)", "new(*int)", "new(int)", "nil", "&S{}", "new(G[int])", "new(*G[int])", "new(struct{ A int })", "new(*struct{ A int })", "new(I)", "ps", "&ps", "new(T)", "new(*T)", "(**S)(nil)", "new(Pair[int, string])", "new([]S)", "x", "any(new(S))"}
 
-var c20BindArg0 = []string{"new(I)", "new(S)", "nil", "(*I)(nil)", "new(*I)", "I(nil)", "new(interface{ M() })", "new(any)", "new(error)", "x", "new(F)", "new(G[int])", "&ps", "new(int)"}
-var c20BindArg1 = []string{"new(C)", "new(*S)", "new(S)", "C{}", "nil", "(*C)(nil)", "new(I)", "new(**S)", "new(G[int])", "&C{}", "new(*C)", "x", "new(*G[int])", "new(Pair[int, string])", "new(F)", "ps", "new(int)", "NewC()"}
+var c20BindArg0 = []string{"new(conf.I)", "new(I)", "new(S)", "nil", "(*I)(nil)", "new(*I)", "I(nil)", "new(interface{ M() })", "new(any)", "new(error)", "x", "new(F)", "new(G[int])", "&ps", "new(int)"}
+var c20BindArg1 = []string{"new(conf.C)", "new(*conf.T)", "new(C)", "new(*S)", "new(S)", "C{}", "nil", "(*C)(nil)", "new(I)", "new(**S)", "new(G[int])", "&C{}", "new(*C)", "x", "new(*G[int])", "new(Pair[int, string])", "new(F)", "ps", "new(int)", "NewC()"}
 
-var c20ValueArg = []string{"nil", "NewS", "S{}", "func() {}", "Gen[int]", "G[int]{V: 1}", "Pair[int, string]{Key: 1}", "[...]int{1}", "struct{ A int }{1}", "tv.Method", "x", "&x", "*&x", "I(C{})", "any(1)", "unsafe.Pointer(nil)", "unsafe.Sizeof(x)", `len("a")`, "1 << 3", "'a'", "1.5", "2i", `"s"[0]`, "names[0]", "k", "one", "fv", "F(nil)", "up", "ps", "*ps", "ps.A", "[]S{{A: 1}}", "map[string]S{}", "(S{})", "S{}.A", "&S{}", "[2]int{}", "chan int(nil)", "(<-chan int)(nil)", "error(nil)", "true", "!true", "-x", "x + 1", "<-make(chan int)", "NewInt()", "fv()", "Gen[int]()", "new(S)", "interface{ M() }(C{})", "tv", "T{}", "C.M", "func(a int) int { return a }", "iota_", "a"}
+var c20ValueArg = []string{"conf.Default", "conf.T{A: 1}", "&conf.Default2", "conf.PT", "conf.Const", "conf.Fn", "os.Stdin", "conf.T{}.A", "NewS", "S{}", "func() {}", "Gen[int]", "G[int]{V: 1}", "Pair[int, string]{Key: 1}", "[...]int{1}", "struct{ A int }{1}", "tv.Method", "x", "&x", "*&x", "I(C{})", "any(1)", "unsafe.Pointer(nil)", "unsafe.Sizeof(x)", `len("a")`, "1 << 3", "'a'", "1.5", "2i", `"s"[0]`, "names[0]", "k", "one", "fv", "F(nil)", "up", "ps", "*ps", "ps.A", "[]S{{A: 1}}", "map[string]S{}", "(S{})", "S{}.A", "&S{}", "[2]int{}", "chan int(nil)", "(<-chan int)(nil)", "error(nil)", "true", "!true", "-x", "x + 1", "<-make(chan int)", "NewInt()", "fv()", "Gen[int]()", "new(S)", "interface{ M() }(C{})", "tv", "T{}", "C.M", "func(a int) int { return a }", "iota_", "a"}
 
 var c20IfaceVal1 = []string{"C{}", "nil", "1", "G[int]{}", "Pair[int, string]{}", "&S{}", "ps", "S{}", "NewC()", "I(C{})", "x", "new(S)", "fv", "tv", "Gen[C]()", "NewI()", "(*S)(nil)"}
 
@@ -191,6 +226,7 @@ type C20Case struct {
 	Import string `json:"import"` // plain, dot, alias
 	Err    bool   `json:"err"`    // result-type cases: provider can fail
 	Cl     bool   `json:"cl"`
+	prog   string
 }
 
 func (cs *C20Case) key() string { b, _ := json.Marshal(cs); return HashString(string(b)) }
@@ -276,14 +312,22 @@ func (cs *C20Case) files() map[string]string {
 	case "alias":
 		body = strings.ReplaceAll(body, "wire.", "w.")
 	}
+	w.WriteString("import (\n")
 	if needUnsafe {
-		fmt.Fprintf(&w, "import (\n\t\"unsafe\"\n\n\t%s\n)\n\n", imp)
-	} else {
-		fmt.Fprintf(&w, "import %s\n\n", imp)
+		w.WriteString("\t\"unsafe\"\n")
 	}
+	for _, std := range []string{"os", "fmt", "errors"} {
+		if strings.Contains(body, std+".") {
+			fmt.Fprintf(&w, "\t%q\n", std)
+		}
+	}
+	if strings.Contains(body, "conf.") {
+		fmt.Fprintf(&w, "\t%q\n", ProgPath(cs.prog)+"/conf")
+	}
+	fmt.Fprintf(&w, "\n\t%s\n)\n\n", imp)
 	w.WriteString(body)
 	w.WriteString(defsExtra)
-	return map[string]string{"defs.go": c20Defs + c20ResultDefs, "wire.go": w.String()}
+	return map[string]string{"defs.go": c20Defs + c20ResultDefs, "wire.go": w.String(), "conf/conf.go": c20Conf}
 }
 
 // all enumerates the catalogue (for the thorough tier).
@@ -392,6 +436,7 @@ func c20Eval(c *Ctx) func(cs []*C20Case) []c20Obs {
 			var names []string
 			for i := rs[ri].lo; i < rs[ri].hi; i++ {
 				n := fmt.Sprintf("f%05d", i)
+				cs[i].prog = n
 				w.AddProg(n, cs[i].files())
 				names = append(names, n)
 			}
